@@ -69,6 +69,18 @@ def identity_violations(rec):
     return v
 
 
+def _differing_labels(exp_l, got_l):
+    """Labels whose multiplicity differs between the two lists; for a pure re-ordering, the labels that are out of
+    place."""
+    import collections
+    a, b = collections.Counter(x.strip() for x in exp_l), collections.Counter(x.strip() for x in got_l)
+    out = sorted(k for k in set(a) | set(b) if a[k] != b[k])
+    if not out:
+        out = sorted({x.strip() for x, y in zip(exp_l, got_l) if x.strip() != y.strip()} |
+                     {y.strip() for x, y in zip(exp_l, got_l) if x.strip() != y.strip()})
+    return out
+
+
 def file_violations(rec, remove_penalised, write_out_order):
     parsed = pkaparse.parse(rec["pka_text"])
     v = []
@@ -87,7 +99,8 @@ def file_violations(rec, remove_penalised, write_out_order):
     if [g["label"] for g in expected] != [d["label"] for d in got]:
         exp_l, got_l = [g["label"] for g in expected], [d["label"] for d in got]
         first = next((i for i, (a, b) in enumerate(zip(exp_l, got_l)) if a != b), min(len(exp_l), len(got_l)))
-        return [{"clause": "table-groups", "detail": "determinant table lists %d groups, record %d; first difference at "
+        return [{"clause": "table-groups", "labels": _differing_labels(exp_l, got_l),
+                 "detail": "determinant table lists %d groups, record %d; first difference at "
                  "%d: %r vs %r" % (len(got_l), len(exp_l), first, got_l[first:first + 2], exp_l[first:first + 2])}], {}
     multi = False
     for g, d in zip(expected, got):
@@ -125,7 +138,10 @@ def file_violations(rec, remove_penalised, write_out_order):
             if g["rtype"] == rtype and not (g["ctg"] is not None and remove_penalised):
                 exp_sum.append(g)
     if [g["label"].rjust(9) for g in exp_sum] != [r["label"] for r in parsed["summary"]]:
-        v.append({"clause": "summary-groups", "detail": "summary lists %r..., record %r..." % (
+        v.append({"clause": "summary-groups",
+                  "labels": _differing_labels([g["label"].rjust(9) for g in exp_sum],
+                                              [r["label"] for r in parsed["summary"]]),
+                  "detail": "summary lists %r..., record %r..." % (
             [r["label"] for r in parsed["summary"]][:5], [g["label"] for g in exp_sum][:5])})
     else:
         table_pka = {}
@@ -161,10 +177,30 @@ def check_case(case):
         cfg = census.read_cfg()
         fv, info = file_violations(rec, remove_penalised, cfg["write_out_order"])
         v += fv
-    twins = bool(common.twin_atoms(pdbio.parse(text)))
-    for x in v:
-        if twins and x["clause"] in ("table-groups", "summary-groups", "table-row", "summary-row", "summary==table"):
-            x["sig"] = "icode-twin"
+    # open finding F5: groups of residues that share chain+number and differ in insertion code share a label; the
+    # average, the table and the summary address groups by label.  Only violations that concern such groups carry the
+    # signature.
+    entries = pdbio.parse(text)
+    tw = common.twin_atoms(entries)
+    if tw and v:
+        twin_res = {(a.chain.strip() or "_", a.resnum) for a in tw}
+        twin_labels = {g["label"].strip() for c in rec["confs"].values() for g in c["groups"]
+                       if not g["hetatm"] and (g["chain"].strip() or "_", g["resnum"]) in twin_res}
+        by_key = {}
+        for c in rec["confs"].values():
+            for g in c["groups"]:
+                by_key.setdefault(g["key"], g)
+        for x in v:
+            if x["clause"] not in ("table-groups", "summary-groups", "table-row", "summary-row", "summary==table",
+                                   "sum-identity", "bridged==99.99"):
+                continue
+            if "labels" in x:
+                if x["labels"] and all(l in twin_labels for l in x["labels"]):
+                    x["sig"] = "icode-twin"
+            elif x.get("key") in by_key:
+                g = by_key[x["key"]]
+                if g["label"].strip() in twin_labels:
+                    x["sig"] = "icode-twin"
     penalised = any(g["ctg"] is not None for c in rec["confs"].values() for g in c["groups"])
     many = any(len(g["dets"][t]) >= 2 for c in rec["confs"].values() for g in c["groups"] for t in observe.DET_TYPES)
     if penalised:
